@@ -22,7 +22,7 @@ ASSUMPTIONS = ["CPython zoneinfo + installed tz data define which wall times exi
 
 ENTRIES = ["datetime(name)", "datetime(Timezone)", "datetime(ZoneInfo)", "create", "local", "set", "at", "on", "replace",
            "replace(fold)", "parse", "convert", "Timezone.datetime", "naive.in_timezone", "convert(pendulum naive)", "naive.replace(tzinfo)",
-           "naive.replace(tzinfo, fold)"]
+           "naive.replace(tzinfo, fold)", "local(name)", "local(TZ env)"]
 
 
 def wt(w):
@@ -64,6 +64,28 @@ def build(entry, zone, w, fold, roe):
             return pendulum.local(*f), 1
         finally:
             pendulum.set_local_timezone()
+    if entry == "local(name)":
+        pendulum.set_local_timezone(zone)      # the documented str form: the local zone designated by its name
+        try:
+            return pendulum.local(*f), 1
+        finally:
+            pendulum.set_local_timezone()
+    if entry == "local(TZ env)":
+        import os
+        import importlib
+        LT = importlib.import_module("pendulum.tz.local_timezone")
+        old, old_cached = os.environ.get("TZ"), LT._local_timezone
+        os.environ["TZ"] = zone
+        LT._local_timezone = None               # forget the cached system zone: the next lookup reads the environment
+        try:
+            req(pendulum.local_timezone().name == zone, "local_timezone() does not resolve TZ=<zone name> to that zone", got=pendulum.local_timezone().name)
+            return pendulum.local(*f), 1
+        finally:
+            LT._local_timezone = old_cached
+            if old is None:
+                os.environ.pop("TZ", None)
+            else:
+                os.environ["TZ"] = old
     if entry == "convert":
         return tz.convert(D.datetime(*f, fold=fold)), fold
     if entry == "Timezone.datetime":
@@ -166,6 +188,7 @@ def case_strategy(draw):
 
 
 class Construct(Sub):
+    ambient = True
     name = "construct"
     n = {"quick": 20000, "thorough": 500000}
     shards = {"quick": 4, "thorough": 8}
@@ -190,6 +213,7 @@ class Construct(Sub):
 
 
 class Fixed(Sub):
+    ambient = True
     name = "fixed_offset"
     backends = ("py",)
     n = {"quick": 4000, "thorough": 60000}
@@ -222,6 +246,7 @@ class Fixed(Sub):
 
 
 class AllGaps(Sub):
+    ambient = True
     """Every enumerated gap and overlap of every zone x edge probes x folds x flags."""
     name = "all_gaps_overlaps"
     kind = "enum"
